@@ -9,6 +9,7 @@ import CasModel.Blake3
 import CasModel.Wire
 import CasModel.Sim
 import CasModel.Conc
+import CasModel.Fault
 /-
   Model driver: one request per input line, one response line per request.
   The functions called here are the ones the theorems are about; this file only parses and prints.
@@ -168,10 +169,77 @@ def showEntries (m : KMap Bytes) : String :=
   if m.isEmpty then "_" else
   ";".intercalate (m.map (fun (k, i) => s!"{toHexString k}:{toHexString i.hash}:{i.size}"))
 
-def storeStep (w : World) (toks : List String) : Option (World × String) :=
+/-! ### fault injection (C14) -/
+
+def applyFault (w : World) (o : FaultOut) (normal : String) : World × String :=
+  let w' := { w with disk := w.disk.applyAll o.events, trace := w.trace ++ o.events,
+                     stagingCtr := bumpStaging w.stagingCtr o.events, failAt := none }
+  let res := match o.res with
+    | .completed => normal
+    | .okDespite => normal
+    | .err => "err"
+  (w', s!"fault events={o.attempts} {res}")
+
+def memDirty (m : Mem) : Bool := !m.walBuf.isEmpty || !m.protectedFailed.isEmpty
+
+def faultStep (w : World) (k : Nat) (toks : List String) : Option (World × String) :=
+  match toks with
+  | ["put", key, chunks] => do
+    let key ← parseHex key
+    let chunks ← parseChunks chunks
+    let m ← w.handle
+    let o := faultPut H m w.disk w.stagingCtr key chunks k
+    let (w', r) := applyFault w o "ok"
+    pure ({ w' with handle := o.mem }, r)
+  | ["remove", key] => do
+    let key ← parseHex key
+    let m ← w.handle
+    match kLookup m.idx.map key with
+    | none => pure ({ w with failAt := none }, "fault events=0 false")
+    | some _ =>
+      let o := faultRemove H m w.disk [key] k
+      let (w', r) := applyFault w o "true"
+      pure ({ w' with handle := o.mem }, r)
+  | ["rrange", lo, hi] => do
+    let lo ← parseLo lo
+    let hi ← parseHi hi
+    let m ← w.handle
+    let keys := rangeKeys m lo hi
+    if keys.isEmpty then pure ({ w with failAt := none }, "fault events=0 0") else
+    let o := faultRemove H m w.disk keys k
+    let (w', r) := applyFault w o (toString keys.length)
+    pure ({ w' with handle := o.mem }, r)
+  | ["checkpoint"] => do
+    let m ← w.handle
+    let o := faultCheckpoint m w.disk k
+    let (w', r) := applyFault w o "ok"
+    pure ({ w' with handle := o.mem }, r)
+  | ["close"] => do
+    let m ← w.handle
+    let o := faultClose m k
+    let (w', r) := applyFault w o "ok"
+    pure ({ w' with handle := none, scan := none, txs := [] }, r)
+  | ["open"] =>
+    let (o, r) := faultOpen H w.cfg w.disk k
+    match r with
+    | some (.ok (m, sc)) =>
+      let (w', s) := applyFault w o (if w.cfg.scan then
+        s!"ok orphans={sc.orphaned.length} missing={sc.missing.length} corrupted={sc.corrupted.length} staging={sc.staging.length} total={sc.total} invalid={sc.invalid.length}"
+        else "ok noscan")
+      some ({ w' with handle := some m, scan := some sc }, s)
+    | some (.error e) =>
+      let (w', s) := applyFault w o ("err " ++ showOpenErr e)
+      some (w', s)
+    | none =>
+      let (w', s) := applyFault w o "err"
+      some (w', s)
+  | _ => none
+
+def storeStepNormal (w : World) (toks : List String) : Option (World × String) :=
   let armed := w.plan.isSome
   match toks with
   | "cfg" :: rest => (parseCfg rest).map (fun c => ({ cfg := c }, "ok"))
+  | ["failnext", k] => k.toNat?.map (fun k => ({ w with failAt := some k }, "armed"))
   | ["crashnext", k] => k.toNat?.map (fun k => ({ w with plan := some ⟨k, none, false⟩ }, "armed"))
   | ["plossnext", k, spec] => do
     let k ← k.toNat?
@@ -364,7 +432,7 @@ def storeStep (w : World) (toks : List String) : Option (World × String) :=
   | ["mem"] =>
     match w.handle with
     | none => some (w, "nohandle")
-    | some m => some (w, s!"next={m.next} persisted={m.idx.lastPersisted} intents=0")
+    | some m => some (w, s!"next={m.next} persisted={m.idx.lastPersisted} intents=0 protected={m.protectedFailed.length}")
   | ["delete_orphans"] =>
     match w.handle, w.scan with
     | some m, some sc =>
@@ -513,6 +581,25 @@ def concStep (w : World) (toks : List String) : Option String := do
     let exact := if files == refd then "EXACT" else "INEXACT"
     pure (" | ".intercalate (obs ++ [s!"final:{res}:{concObs s1.sh}:{exact}"]))
   | [] => none
+
+/-- after a fault left state behind in memory (retained WAL bytes, kept protection) the mutating
+    calls go through the Fault versions of the scripts, with no fault armed -/
+def stripFault (r : String) : String :=
+  match r.splitOn " " with
+  | "fault" :: _ :: rest => " ".intercalate rest
+  | _ => r
+
+def storeStep (w : World) (toks : List String) : Option (World × String) :=
+  match w.failAt with
+  | some k => faultStep w k toks
+  | none =>
+    let dirty := match w.handle with | some m => memDirty m | none => false
+    let mutating := match toks with
+      | "put" :: _ | "remove" :: _ | "rrange" :: _ | ["close"] => true
+      | _ => false
+    if dirty && mutating && w.plan.isNone then
+      (faultStep w 1000000000 toks).map (fun (w', r) => (w', stripFault r))
+    else storeStepNormal w toks
 
 def step (st : DState) (line : String) : DState × String :=
   match line.trimAscii.toString.splitOn " " with
